@@ -10,15 +10,19 @@ import (
 	"math/rand"
 	"net"
 	"net/http"
+	"net/url"
 	"os"
 	"os/exec"
 	"strings"
 	"sync"
 	"time"
 
+	"github.com/gobwas/ws"
 	"github.com/vipnode/vipnode/v2/agent"
 	"github.com/vipnode/vipnode/v2/ethnode"
 	"github.com/vipnode/vipnode/v2/jsonrpc2"
+	gobwasws "github.com/vipnode/vipnode/v2/jsonrpc2/ws/gobwas"
+	gorillaws "github.com/vipnode/vipnode/v2/jsonrpc2/ws/gorilla"
 	"github.com/vipnode/vipnode/v2/pool"
 	"github.com/vipnode/vipnode/v2/pool/balance"
 	"github.com/vipnode/vipnode/v2/pool/payment"
@@ -61,7 +65,53 @@ func runC15Child(ctx *Ctx) {
 	if err != nil {
 		fatal("%v", err)
 	}
-	fmt.Printf("PORTS %d %d\n", ln.Addr().(*net.TCPAddr).Port, hln.Addr().(*net.TCPAddr).Port)
+	// WebSocket, wired as the pool binary does (server.go): upgrade, one Remote per connection
+	// served inside the HTTP handler, the registry told when it ends; /gobwas uses the other codec
+	wln, err := net.Listen("tcp", "127.0.0.1:0")
+	if err != nil {
+		fatal("%v", err)
+	}
+	wsHandler := func(lib string) http.HandlerFunc {
+		return func(w http.ResponseWriter, r *http.Request) {
+			var codec jsonrpc2.Codec
+			var err error
+			if lib == "gorilla" {
+				codec, err = (&gorillaws.Upgrader{}).Upgrade(r, w, nil)
+			} else {
+				codec, err = (&gobwasws.Upgrader{Upgrader: ws.HTTPUpgrader{}}).Upgrade(r, w, nil)
+			}
+			if err != nil {
+				return
+			}
+			remote := &jsonrpc2.Remote{Codec: codec, Server: &hs.Server, Client: &jsonrpc2.Client{}, PendingLimit: 50, PendingDiscard: 10}
+			defer p.CloseRemote(remote)
+			defer codec.Close()
+			remote.Serve()
+		}
+	}
+	mux := http.NewServeMux()
+	mux.HandleFunc("/gorilla", wsHandler("gorilla"))
+	mux.HandleFunc("/gobwas", wsHandler("gobwas"))
+	go http.Serve(wln, mux)
+	// the agent's side of a WebSocket (agent.go): dial, then serve the connection in a goroutine of
+	// its own -- nothing recovers a panic there
+	if target := os.Getenv("VERIF_C15_DIAL"); target != "" {
+		go func() {
+			dctx, cancel := context.WithTimeout(context.Background(), 5*time.Second)
+			defer cancel()
+			codec, err := gorillaws.WebSocketDial(dctx, target)
+			if err != nil {
+				fmt.Fprintf(os.Stderr, "dial: %v\n", err)
+				return
+			}
+			remote := &jsonrpc2.Remote{Codec: codec, Server: &hs.Server, Client: &jsonrpc2.Client{}}
+			go func() {
+				err := remote.Serve()
+				fmt.Fprintf(os.Stderr, "dialled connection ended: %v\n", err)
+			}()
+		}()
+	}
+	fmt.Printf("PORTS %d %d %d\n", ln.Addr().(*net.TCPAddr).Port, hln.Addr().(*net.TCPAddr).Port, wln.Addr().(*net.TCPAddr).Port)
 	os.Stdout.Sync()
 	go http.Serve(hln, hs)
 	for {
@@ -254,6 +304,7 @@ type c15Child struct {
 	tcp, httpP int
 	exited     chan struct{}
 	stderr     bytes.Buffer
+	wsP        int
 }
 
 func startC15Child(ctx *Ctx, env ...string) *c15Child {
@@ -269,7 +320,7 @@ func startC15Child(ctx *Ctx, env ...string) *c15Child {
 	if !sc.Scan() {
 		fatal("child did not start: %s", ch.stderr.String())
 	}
-	fmt.Sscanf(sc.Text(), "PORTS %d %d", &ch.tcp, &ch.httpP)
+	fmt.Sscanf(sc.Text(), "PORTS %d %d %d", &ch.tcp, &ch.httpP, &ch.wsP)
 	go func() { cmd.Wait(); close(ch.exited) }()
 	return ch
 }
@@ -812,6 +863,9 @@ func runC15(ctx *Ctx) {
 	if ctx.Want(cases + 2) {
 		c15Withheld(ctx, cases+2)
 	}
+	if ctx.Want(cases + 30) {
+		c15WS(ctx, cases+30)
+	}
 	for c := 0; c < ctx.N(2, 20); c++ {
 		if ctx.Want(cases + 3 + c) {
 			c15Agent(ctx, cases+3+c, ctx.Sub(cases+3+c))
@@ -819,4 +873,155 @@ func runC15(ctx *Ctx) {
 	}
 	_ = context.Background
 	_ = rand.Int
+}
+
+// c15WS: frames that violate WebSocket framing (RFC 6455 5.1, 5.2, 5.5), from a hostile client to
+// the pool's WebSocket endpoint (both codecs), and from a hostile pool to a dialling agent. The
+// receiving process must end that connection and nothing else: no panic, no crash, and the next
+// connection is served.
+func c15WS(ctx *Ctx, i int) {
+	var mon []string
+	bad := map[string][]byte{
+		"unmasked-text-frame-from-client": {0x81, 0x02, '{', '}'},
+		"unknown-opcode-3":                {0x83, 0x80, 1, 2, 3, 4},
+		"reserved-bit-set":                {0xC1, 0x82, 1, 2, 3, 4, '{' ^ 1, '}' ^ 2},
+		"oversized-control-frame":         append([]byte{0x89, 0xFE, 0x00, 0x7E, 1, 2, 3, 4}, make([]byte, 126)...),
+		"fragmented-control-frame":        {0x09, 0x80, 1, 2, 3, 4},
+	}
+	kinds := []string{"unmasked-text-frame-from-client", "unknown-opcode-3", "reserved-bit-set", "oversized-control-frame", "fragmented-control-frame"}
+	ch := startC15Child(ctx)
+	defer ch.stop()
+	n := 0
+	wsProbe := func(path string) error {
+		c, err := net.DialTimeout("tcp", fmt.Sprintf("127.0.0.1:%d", ch.wsP), 2*time.Second)
+		if err != nil {
+			return err
+		}
+		defer c.Close()
+		c.SetDeadline(time.Now().Add(4 * time.Second))
+		if _, _, err := (ws.Dialer{}).Upgrade(c, mustURL(fmt.Sprintf("ws://127.0.0.1:%d%s", ch.wsP, path))); err != nil {
+			return fmt.Errorf("upgrade: %v", err)
+		}
+		f := ws.NewTextFrame([]byte(`{"jsonrpc":"2.0","id":"p","method":"vipnode_ping"}` + "\n"))
+		if err := ws.WriteFrame(c, ws.MaskFrameInPlace(f)); err != nil {
+			return err
+		}
+		for {
+			fr, err := ws.ReadFrame(c)
+			if err != nil {
+				return fmt.Errorf("no answer to the probe: %v", err)
+			}
+			if fr.Header.OpCode == ws.OpText || fr.Header.OpCode == ws.OpBinary {
+				if !strings.Contains(string(fr.Payload), `"pong"`) {
+					return fmt.Errorf("probe answered %s", fr.Payload)
+				}
+				return nil
+			}
+		}
+	}
+	for _, path := range []string{"/gorilla", "/gobwas"} {
+		for _, k := range kinds {
+			if !ch.alive() {
+				break
+			}
+			c, err := net.DialTimeout("tcp", fmt.Sprintf("127.0.0.1:%d", ch.wsP), 2*time.Second)
+			if err != nil {
+				mon = append(mon, fmt.Sprintf("c15-ws-dial: %v", err))
+				break
+			}
+			c.SetDeadline(time.Now().Add(4 * time.Second))
+			if _, _, err := (ws.Dialer{}).Upgrade(c, mustURL(fmt.Sprintf("ws://127.0.0.1:%d%s", ch.wsP, path))); err != nil {
+				c.Close()
+				mon = append(mon, fmt.Sprintf("c15-ws-upgrade: %v", err))
+				break
+			}
+			c.Write(bad[k])
+			// the server ends the connection (a close frame and/or the TCP close), promptly
+			t0 := time.Now()
+			buf := make([]byte, 512)
+			for {
+				if _, err := c.Read(buf); err != nil {
+					break
+				}
+			}
+			if took := time.Since(t0); took > 3*time.Second {
+				mon = append(mon, fmt.Sprintf("c15-ws-not-closed: %s after a frame with %s the connection was still open after %s", path, k, took.Round(time.Millisecond)))
+			}
+			c.Close()
+			n++
+			time.Sleep(30 * time.Millisecond)
+			if pl := wsPanic(ch.stderr.String()); pl != "" {
+				mon = append(mon, fmt.Sprintf("c15-ws-panic: %s: a frame with %s made the serving goroutine panic: %s", path, k, pl))
+				break
+			}
+			if err := wsProbe(path); err != nil {
+				mon = append(mon, fmt.Sprintf("c15-ws-dead: %s: after a frame with %s the next connection is not served: %v", path, k, err))
+				break
+			}
+		}
+	}
+	if !ch.alive() {
+		mon = append(mon, "c15-crash: the serving process died on a malformed WebSocket frame: "+panicLine(ch.stderr.String()))
+	}
+	// a hostile pool: the dialling side (agent.go) reads server frames; masked frames, unknown
+	// opcodes and reserved bits from a server are protocol violations too
+	srvBad := map[string][]byte{
+		"masked-text-frame-from-server": {0x81, 0x82, 1, 2, 3, 4, '{' ^ 1, '}' ^ 2},
+		"unknown-opcode-3":              {0x83, 0x00},
+		"reserved-bit-set":              {0xC1, 0x02, '{', '}'},
+	}
+	for _, k := range []string{"masked-text-frame-from-server", "unknown-opcode-3", "reserved-bit-set"} {
+		ln, err := net.Listen("tcp", "127.0.0.1:0")
+		if err != nil {
+			fatal("%v", err)
+		}
+		accepted := make(chan net.Conn, 1)
+		go func() {
+			c, err := ln.Accept()
+			if err != nil {
+				return
+			}
+			if _, err := ws.Upgrade(c); err != nil {
+				c.Close()
+				return
+			}
+			accepted <- c
+		}()
+		dial := startC15Child(ctx, fmt.Sprintf("VERIF_C15_DIAL=ws://%s/", ln.Addr().String()))
+		select {
+		case c := <-accepted:
+			c.Write(srvBad[k])
+			time.Sleep(400 * time.Millisecond)
+			c.Close()
+		case <-time.After(5 * time.Second):
+			mon = append(mon, "c15-ws-agent-dial: the dialling process never connected: "+panicLine(dial.stderr.String()))
+		}
+		time.Sleep(200 * time.Millisecond)
+		if !dial.alive() {
+			mon = append(mon, fmt.Sprintf("c15-crash: a process that dialled a pool over WebSocket (as the agent does) died when the pool sent a frame with %s: %s", k, panicLine(dial.stderr.String())))
+		} else if pl := wsPanic(dial.stderr.String()); pl != "" {
+			mon = append(mon, fmt.Sprintf("c15-ws-panic: dialling side: a frame with %s: %s", k, pl))
+		}
+		dial.stop()
+		ln.Close()
+		n++
+	}
+	ctx.Emit(Case{I: i, Kind: "websocket-frames", Desc: map[string]interface{}{"hostile_frames": n, "kinds": kinds}, Monitor: mon})
+}
+
+func wsPanic(stderr string) string {
+	for _, l := range strings.Split(stderr, "\n") {
+		if strings.Contains(l, "panic") {
+			return l
+		}
+	}
+	return ""
+}
+
+func mustURL(s string) *url.URL {
+	u, err := url.Parse(s)
+	if err != nil {
+		fatal("%v", err)
+	}
+	return u
 }
